@@ -510,6 +510,41 @@ def run_assertion_clients(ctx):
                                   "(grant type, assertion claims or scope differ)", dict(case, form={k: v for k, v in form.items() if k != "assertion"}, claims_read=cl))
 
 
+def run_token_helpers(ctx):
+    """The clients' revoke_token / introspect_token helpers (RFC 7009 / 7662 request bodies): the token and the hint reach the server
+    half character for character, on all three client stacks."""
+    toks = ["tok", "a+b/c=", "a+b", "with space", "a&b=c", "caf\u00e9", "t-._~", "%41", "a%2Bb", "+", "x" * 300]
+    for helper in ("revoke_token", "introspect_token"):
+        for tok in toks:
+            for hint in (None, "access_token", "refresh_token"):
+                kw = dict(client_id="cid", client_secret="sec", token_endpoint_auth_method="client_secret_basic")
+                caps = {}
+                try:
+                    cap = Capture()
+                    getattr(requests_client(cap, **kw), helper)("https://as.example/" + helper, token=tok, token_type_hint=hint)
+                    caps["requests"] = cap.reqs
+                    cap = Capture()
+                    getattr(HttpxOAuth2Client(transport=httpx.MockTransport(httpx_handler(cap)), **kw), helper)("https://as.example/" + helper, token=tok, token_type_hint=hint)
+                    caps["httpx"] = cap.reqs
+                    cap = Capture()
+
+                    async def go(cap=cap):
+                        async with AsyncOAuth2Client(transport=httpx.MockTransport(httpx_handler(cap)), **kw) as c:
+                            await getattr(c, helper)("https://as.example/" + helper, token=tok, token_type_hint=hint)
+                    asyncio.run(go())
+                    caps["async_httpx"] = cap.reqs
+                except Exception as e:  # noqa: BLE001
+                    ctx.violation("C15:token-helper:raises:%s" % type(e).__name__, "a client's %s raised while building its request: %s" % (helper, str(e)[:100]), {"token": tok, "hint": hint})
+                    continue
+                for kind, reqs in caps.items():
+                    case = {"token_helper": helper, "client": kind, "token": tok, "hint": hint}
+                    ctx.case(case, ("token-helper", helper, kind, tok, hint), "token-helper:%s:%s" % (helper, kind))
+                    rd = server_read(reqs[0], {"cid": S.Client("cid", "sec", [], "", [], [], "client_secret_basic")}) if len(reqs) == 1 else None
+                    if rd is None or rd["form"].get("token") != tok or rd["form"].get("token_type_hint") != hint or rd["client"] != ["cid", "client_secret_basic"]:
+                        ctx.violation("C15:token-helper:read-back-differs:%s" % kind, "the %s request of the %s client is not read back unchanged by the server half" % (helper, kind),
+                                      dict(case, read=None if rd is None else {"token": rd["form"].get("token"), "hint": rd["form"].get("token_type_hint"), "client": rd["client"]}))
+
+
 def run(ctx):
     ctx.rule = ("codecs: generated parameter lists over text with spaces, + & = # ? ; / quotes, non-ASCII and % x existing "
                 "query/fragment text x URL shapes, plus hostile url_decode input; clients: generated scenarios (authorize, "
@@ -522,6 +557,7 @@ def run(ctx):
     run_responses(ctx)
     run_client_responses(ctx)
     run_assertion_clients(ctx)
+    run_token_helpers(ctx)
 
 
 def run_case(ctx, case):
